@@ -11,5 +11,8 @@ def run(ctx):
     )
     cfgs = ["BubbleChain_q.cfg", "BubbleChain_q2.cfg", "BubbleChain_long.cfg", "BubbleChain_w.cfg"] if not ctx.thorough else ["BubbleChain_t.cfg", "BubbleChain_q2.cfg", "BubbleChain_t3.cfg", "BubbleChain_long.cfg", "BubbleChain_w.cfg"]
     jobs = sessions(ctx, cfgs, "C07", lambda k: {"allcfg": ctx.thorough})
+    # scale: a bubble with 1,100 alleles that is not the last element of its chain (NO runs past 1000)
+    from props.chain_common import scale_state
+    jobs.append(("scale-1100", scale_state(1100), "C07", ctx.seed * 1009 + 5, {"allcfg": True}))
     finish(ctx, jobs, "C07")
     ctx.exhaustive = True
